@@ -139,3 +139,12 @@ package asset
 //@ loop#1 invariant len(jobs) == len(s.Assets) && (forall j :: 0 <= j && j < len(jobs) ==> jobs[j] == s.Assets[j])
 //@ loop#1 invariant hasErrors || (forall j :: 0 <= j && j < consumed(jobs) ==> synced(source, target, s.Assets[j], defaultStartDate))
 //@ loop#1 invariant forall j :: consumed(jobs) <= j && j < len(s.Assets) ==> has(view(target), s.Assets[j]) == old(has(view(target), s.Assets[j])) && sameslice(view(target)[s.Assets[j]], old(view(target)[s.Assets[j]]))
+
+// ---- SQLRepository.Append relative to the assumed behaviour of database/sql: one synchronous write per Exec ---------
+// "an Append that has returned is visible to every later read": every snapshot has been written when Append returns
+//@ func SQLRepository.Append
+//@ requires consumed(snapshots) == 0
+//@ ensures[C10] "all-rows-written-at-return" result == nil ==> consumed(snapshots) == len(snapshots) && nexec(s.appendQuery) == old(nexec(s.appendQuery)) + len(snapshots)
+//@ ensures[C10] "rows-in-order" result == nil ==> (forall k :: 0 <= k && k < len(snapshots) ==> execarg(s.appendQuery, 0, old(nexec(s.appendQuery)) + k, name) == name && execarg(s.appendQuery, 1, old(nexec(s.appendQuery)) + k, snapshots[k].Date) == snapshots[k].Date && execarg(s.appendQuery, 5, old(nexec(s.appendQuery)) + k, snapshots[k].Close) == snapshots[k].Close)
+//@ loop#0 invariant nexec(s.appendQuery) == old(nexec(s.appendQuery)) + consumed(snapshots)
+//@ loop#0 invariant forall k :: 0 <= k && k < consumed(snapshots) ==> execarg(s.appendQuery, 0, old(nexec(s.appendQuery)) + k, name) == name && execarg(s.appendQuery, 1, old(nexec(s.appendQuery)) + k, snapshots[k].Date) == snapshots[k].Date && execarg(s.appendQuery, 5, old(nexec(s.appendQuery)) + k, snapshots[k].Close) == snapshots[k].Close
